@@ -1081,6 +1081,10 @@ class ServerSSM(SSM):
             self.set_state(ABORTED)
             self.request(apdu)
 
+        elif isinstance(apdu, SegmentAckPDU):
+            # a stray ack, e.g. for a late duplicate of an earlier response
+            if _debug: ServerSSM._debug("    - segment ack ignored")
+
         else:
             raise RuntimeError("invalid APDU (6)")
 
@@ -1127,6 +1131,10 @@ class ServerSSM(SSM):
         elif (apdu.apduType == AbortPDU.pduType):
             self.set_state(COMPLETED)
             self.response(apdu)
+
+        elif (apdu.apduType == ConfirmedRequestPDU.pduType):
+            # a duplicate or retransmission of the request being answered
+            if _debug: ServerSSM._debug("    - client is trying this request again")
 
         else:
             raise RuntimeError("invalid APDU (7)")
